@@ -178,10 +178,12 @@ func (r *RigR) oracles() {
 	}
 
 	earlyParts := r.checkDrops(delivered, stopped, errEvent)
-	partDropIssued := map[int64]bool{}
+	partDropIssued := map[int64]int{} // partition -> step at which its drop request appeared
 	for _, e := range r.Events {
 		if e.Type == api.ReplicateDropPartition {
-			partDropIssued[e.Part] = true
+			if _, ok := partDropIssued[e.Part]; !ok {
+				partDropIssued[e.Part] = e.Appear
+			}
 		}
 	}
 	// ---- C01 completeness
@@ -206,7 +208,7 @@ func (r *RigR) oracles() {
 					s.Probe("filtered_both_sides_dropped")
 					continue // dropped on both sides before the run
 				}
-				if partDropIssued[ref.e.Part] {
+				if at, ok := partDropIssued[ref.e.Part]; ok && at <= ref.dp.Step {
 					// the partition's drop had been replayed when (or before) this message was handled:
 					// "dropped on both sides" by the property's own exemption. Whether that replay was
 					// premature is C04's question (drop_early*), decided from the barrier signals.
